@@ -165,6 +165,92 @@ def r07g(rep, prog, only_files=None):
     return n
 
 
+def r07k(rep, prog, only_files=None):
+    """std::numeric_limits<T>::infinity() (quiet_NaN, ...) is only meaningful for floating-point T: for an integral T it is T() == 0.  The library's
+    templates are instantiated with integral weight types (the witness TU does it with int), so a sentinel / absorbing element / reduction
+    identity written as infinity() silently becomes 0 there: every saturating sum collapses to 0, every minimum is won by the identity."""
+    n = 0
+    for fn in prog.functions:
+        if fn.implicit or not (fn.file.startswith(env.REPO + '/include') or fn.file.startswith(env.WITNESS + '/positive')):
+            continue
+        if only_files and not any(x in fn.file for x in only_files):
+            continue
+        nodes = list(fn.walk())
+        for ci in fn.ctor_inits:
+            if 'node' in ci:
+                nodes += list(ci['node'].walk())
+        for d in nodes:
+            if d.k == 'CallExpr' and d.callee and d.callee['g'] in ('std::numeric_limits::infinity', 'std::numeric_limits::quiet_NaN', 'std::numeric_limits::signaling_NaN'):
+                rt = prog.base_type(d.callee.get('ret')) or {}
+                n += 1
+                what = 'numeric_limits<T>::%s() is used with a floating-point T only' % d.callee['name']
+                if rt.get('int') and not rt.get('float'):
+                    rep.violation('R07k', d, fn, what,
+                                  '`%s` is instantiated with the integral type %s, for which it is 0: used as "infinity" (unreached distance, absorbing element of '
+                                  'the saturating sum, identity of a minimum) it makes every sum / minimum collapse to 0 for integral weight types' % (d.text(50), rt.get('s')),
+                                  key='R07k|%s|integral-infinity' % fn.g)
+                else:
+                    rep.ok('R07k', d, fn, what, rt.get('s') or '')
+    return n
+
+
+def r07l(rep, prog, only_files=None):
+    """integer division / modulo whose divisor is the size of a container (or a count) that can be zero for a valid input - a forest has no
+    feedback vertices, no candidate cycles, no trees - is a division by zero (SIGFPE).  Flagged when the divisor is `X.size()` / `num_vertices` /
+    `num_edges` (possibly through a local) of integral type and no test of that quantity against zero guards the division."""
+    n = 0
+    for fn in prog.functions:
+        if fn.implicit or not (fn.file.startswith(env.REPO + '/include') or fn.file.startswith(env.REPO + '/src') or fn.file.startswith(env.WITNESS + '/positive')):
+            continue
+        if only_files and not any(x in fn.file for x in only_files):
+            continue
+        nodes = list(fn.walk())
+        for ci in fn.ctor_inits:
+            if 'node' in ci:
+                nodes += list(ci['node'].walk())
+        for d in nodes:
+            if not (d.k == 'BinaryOperator' and d.op in ('/', '%') and (d.type or {}).get('int')):
+                continue
+            div = d.c[1].strip_all()
+            dv = ex.var_of(div)
+            src = div
+            if dv is not None and prog.vars[dv].get('kind') == 'local':
+                dd = ex.unique_def(fn, dv)
+                if dd is not None:
+                    src = dd.strip_all()
+            is_size = (src.k == 'CXXMemberCallExpr' and src.callee and src.callee['name'] == 'size' and
+                       (prog.base_type(src.object_arg().strip_all().j.get('t')) or {}).get('rec', '').startswith('std::')) or \
+                      (src.k == 'CallExpr' and src.callee and src.callee['g'] in ('boost::num_vertices', 'boost::num_edges', 'boost::out_degree'))
+            if not is_size:
+                continue
+            n += 1
+            what = 'no integer division by a container size / count that is zero for a valid input'
+            key_ = ex.key(src)
+            guarded = False
+            for (c_, pol_) in ex.ast_conditions(d):
+                for x in c_.walk():
+                    if ex.key(x) == key_ or (dv is not None and ex.var_of(x) == dv) or \
+                            (x.k == 'CXXMemberCallExpr' and x.callee and x.callee['name'] == 'empty' and src.k == 'CXXMemberCallExpr' and
+                             ex.key(x.object_arg()) == ex.key(src.object_arg())):
+                        guarded = True
+            # an early exit on the empty case in front of the division
+            cfg = fn.cfg
+            if cfg is not None and not guarded:
+                for (c_, pol_, _b) in cfg.guards_of(d):
+                    for x in c_.walk():
+                        if ex.key(x) == key_ or (dv is not None and ex.var_of(x) == dv) or \
+                                (x.k == 'CXXMemberCallExpr' and x.callee and x.callee['name'] == 'empty' and src.k == 'CXXMemberCallExpr' and
+                                 ex.key(x.object_arg()) == ex.key(src.object_arg())):
+                            guarded = True
+            if guarded:
+                rep.ok('R07l', d, fn, what, 'guarded by a test of the divisor')
+            else:
+                rep.violation('R07l', d, fn, what,
+                              '`%s` divides by `%s`, which is 0 for a graph without cycles / an empty collection (a forest has no feedback vertices, trees or '
+                              'candidates): integer division by zero (SIGFPE) on a valid input' % (d.text(50), src.text(30)), key='R07l|%s|div-by-size' % fn.g)
+    return n
+
+
 def r07h(rep, prog, only_files=None):
     """container sizes computed with unsigned subtraction do not wrap for the empty graph: the argument of reserve / resize / a sized constructor
     is evaluated in its C++ arithmetic with num_vertices, num_edges and size() set to 0"""
@@ -569,6 +655,8 @@ def run(rep, tier):
     rep.rule('R07i', 'the minimum of a frontier / heap is only read when it is non-empty', floor=1)
     rep.rule('R07h', 'sizes computed with unsigned subtraction do not wrap for the empty graph', floor=0)
     rep.rule('R07g', 'no mutable function-local static state in library functions', floor=1)
+    rep.rule('R07k', 'numeric_limits<T>::infinity() only for floating-point T (it is 0 for the integral weight types the templates are instantiated with)', floor=0)
+    rep.rule('R07l', 'no integer division by a container size that is zero for a valid input', floor=0)
     rep.rule('R07f', 'no plain + on a distance that may be the infinity marker (signed overflow for integral weights)', floor=0)
     rep.rule('R20a', 'the heap-allocated TBB control object has an owner that releases it (no leak per call)', floor=1)
     rep.rule('R07e', 'unchecked indexing inside blocked_range task bodies stays in bounds', floor=1)
@@ -585,6 +673,8 @@ def run(rep, tier):
         r07b_params(rep, prog)
         r07f(rep, prog)
         r07g(rep, prog)
+        r07k(rep, prog)
+        r07l(rep, prog)
         r07h(rep, prog)
         r07i(rep, prog)
         r07j(rep, prog)
@@ -619,6 +709,11 @@ def run(rep, tier):
     prep5 = type(rep)(rep.prop, rep.tier)
     r07h(prep5, pp)
     rep.positive('R07h', 'witness/positive/c07_shapes.cc', any(i.status == 'violation' for i in prep5.instances.values()))
+    prep7 = type(rep)(rep.prop, rep.tier)
+    r07k(prep7, pp)
+    r07l(prep7, pp)
+    rep.positive('R07k', 'witness/positive/c07_shapes.cc', any(i.status == 'violation' and i.rule == 'R07k' for i in prep7.instances.values()))
+    rep.positive('R07l', 'witness/positive/c07_shapes.cc', any(i.status == 'violation' and i.rule == 'R07l' for i in prep7.instances.values()))
     prep4 = type(rep)(rep.prop, rep.tier)
     r07g(prep4, pp)
     rep.positive('R07g', 'witness/positive/c07_shapes.cc', any(i.status == 'violation' for i in prep4.instances.values()))
